@@ -83,6 +83,11 @@ def create_pyopenssl_server_context(
     else:
         ctx.set_verify(SSL.VERIFY_NONE, lambda *args: True)
 
+    # A server that verifies peers must name a session id context; without one
+    # OpenSSL refuses every resumed session ("session id context uninitialized")
+    # and a client that caches TLS sessions gets EOF on its second connection
+    ctx.set_session_id(b"nauyaca")
+
     return ctx
 
 
